@@ -227,17 +227,28 @@ func ParseSource(text string) (*Source, error) {
 			}
 			if curSec != nil && curSec.Kind == ".romdata" {
 				w := strings.SplitN(rest, " ", 2)
+				// `db list` or the repeat form `N:db list` (the whole list N times, in order)
+				reps := 1
+				if len(w) == 2 && strings.HasSuffix(w[0], ":db") {
+					n, err := strconv.Atoi(strings.TrimSuffix(w[0], ":db"))
+					if err != nil || n < 1 {
+						return nil, fmt.Errorf("line %d: bad repeat count", ln)
+					}
+					reps, w[0] = n, "db"
+				}
 				if len(w) != 2 || w[0] != "db" {
 					return nil, fmt.Errorf("line %d: unsupported data directive", ln)
 				}
 				dv := DataVar{Name: head}
-				for _, b := range splitArgs(w[1]) {
-					v, ok := parseLiteral(b)
-					if !ok || v > 255 {
-						return nil, fmt.Errorf("line %d: bad byte %q", ln, b)
+				for r := 0; r < reps; r++ {
+					for _, b := range splitArgs(w[1]) {
+						v, ok := parseLiteral(b)
+						if !ok || v > 255 {
+							return nil, fmt.Errorf("line %d: bad byte %q", ln, b)
+						}
+						dv.Bytes = append(dv.Bytes, v)
+						dv.Decimal = append(dv.Decimal, !strings.HasPrefix(b, "0x") && !strings.HasPrefix(b, "0b"))
 					}
-					dv.Bytes = append(dv.Bytes, v)
-					dv.Decimal = append(dv.Decimal, !strings.HasPrefix(b, "0x") && !strings.HasPrefix(b, "0b"))
 				}
 				curSec.Data = append(curSec.Data, dv)
 				continue
